@@ -285,7 +285,7 @@ def run(tier, cases=None, only_engines=None):
     else:
         ck.setc("states", len(cases)); ck.setc("transitions", len(cases))
     if only_engines is None and tier in ("quick", "thorough") and not os.environ.get("C01_NO_SWEEP") and len(cases) > 100:
-        fam, rf = progs.run_family(sweep_cases(200 if tier == "quick" else 600) + island_cases() + loop_cases() + gvar_cases() + families.fpcmp_cases() + families.clone_jmpi_cases() + families.andext_cases() + families.spill_index_cases() + families.property_cases() + families.jcall_cases() + families.pressure_loop_cases()
+        fam, rf = progs.run_family(sweep_cases(200 if tier == "quick" else 600) + island_cases() + loop_cases() + gvar_cases() + families.fpcmp_cases() + families.clone_jmpi_cases() + families.andext_cases() + families.spill_index_cases() + families.property_cases() + families.jcall_cases() + families.pressure_loop_cases() + families.neutral_const_cases() + families.loop_size_cases()
                                    + (memwin_cases(40, vlib.seed() % 40) if tier == "quick" else memwin_cases(4, vlib.seed() % 4))
                                    + arith_const_cases(130 if tier == "quick" else 1100,
                                                        [1000003, -1000003] if tier == "quick" else [1000003, -1000003, 0x7fffffff, -(1 << 63), 0x123456789]))
